@@ -355,7 +355,7 @@ ALIAS_OPS = {"builtin.unrealized_conversion_cast", "memref.subview", "memref.cas
              "memref.memory_space_cast", "snax.layout_cast",
              # region ops: a memref result of scf.for aliases the corresponding init (zero trips / yielded block argument)
              "scf.for"}
-# F11b (repaired in /repo 051ab2c): a memref leaving a region through its terminator (scf.yield -> result of the
+# F11b (repaired in /repo 20eb1ea): a memref leaving a region through its terminator (scf.yield -> result of the
 # enclosing scf.if / scf.for) aliases the buffer; the lifetime analysis now follows the memref results of the
 # terminator's parent op, so `alias_followed` (coq/Model/C11Life.v) holds on every generated program again
 MT = "memref<4x4xi32>"
